@@ -2,7 +2,8 @@
    Networks: Model/Pipelines.v. "Partial" in DESIGN.md's sense: channel hand-off, WaitGroup,
    context cancellation and goroutine exit are primitives of the model. *)
 From FunV Require Import Base.Tac Base.ListX Model.Pipelines
-  Proofs.Pipelines_conserve Proofs.Pipelines_quiesce Proofs.Pipelines_nets Proofs.Pipelines_complete Proofs.Pipelines_closer.
+  Proofs.Pipelines_conserve Proofs.Pipelines_quiesce Proofs.Pipelines_nets Proofs.Pipelines_complete Proofs.Pipelines_closer
+  Proofs.Pipelines_nodrop.
 
 (* every step of every network permutes
    remaining input ++ items in goroutines' hands ++ channel buffers ++ delivered ++ dropped *)
@@ -64,10 +65,57 @@ Theorem C01_no_early_close :
 Proof. exact map_no_early_close. Qed.
 Print Assumptions C01_no_early_close.
 
-(* the same for MergeIterators (f = identity, one source per goroutine) and GenerateParallel (f = const 0) *)
+(* the same for MergeIterators (f = identity, one source per goroutine) *)
 Theorem C01_no_early_close_fanin :
   forall n f cap srcs s,
     reach (fanin_net n f) (fanin_init n cap srcs) s -> closedb s 0 = true ->
     cancelledb (fanin_net n f) s 1 = true \/ (s_wg s = 0 /\ forall j, j < n -> isdone s (3 + j)).
 Proof. exact fanin_no_early_close. Qed.
 Print Assumptions C01_no_early_close_fanin.
+
+(* ... and for GenerateParallel (the worker with the explicit ctx.Err() test), however the generator ends *)
+Theorem C01_no_early_close_generate :
+  forall n e input s,
+    reach (gen_net n e) (gen_init n input) s -> closedb s 0 = true ->
+    cancelledb (gen_net n e) s 1 = true \/ (s_wg s = 0 /\ forall j, j < n -> isdone s (3 + j)).
+Proof. exact gen_no_early_close. Qed.
+Print Assumptions C01_no_early_close_generate.
+
+(* who can drop an item: in every network that passes the static check hand_disc (a goroutine that takes
+   an item continues at a send or at the user's function) the ONLY step that drops an item is a send that
+   gives up - its context is cancelled or its channel is closed *)
+Theorem C01_drop_only_by_a_send_that_gives_up :
+  forall N s l s',
+    hinv N s -> step N s l = Some s' ->
+    s_drop s' = s_drop s \/
+    exists p pr d ch g ko ke kr, cur_instr N s p = Some (pr, d, ISend ch g ko ke kr) /\
+                                 (cancelledb N s (resolve pr g) = true \/ closedb s ch = true).
+Proof. exact drop_cause. Qed.
+Print Assumptions C01_drop_only_by_a_send_that_gives_up.
+
+(* GenerateParallel, generator ending with the end-of-stream signal (io.EOF, bare or wrapped; GEof), any
+   number of workers, any input, any interleaving: in a run that nothing aborted NOTHING IS DROPPED ... *)
+Theorem C01_generate_eof_no_drop :
+  forall n input s,
+    reach (gen_net n GEof) (gen_init n input) s -> s_stopped s = false -> s_drop s = [].
+Proof. exact gen_eof_no_drop. Qed.
+Print Assumptions C01_generate_eof_no_drop.
+
+(* ... because the end of the stream cancels nothing: while some worker has not returned, no context is
+   cancelled and the pipe is open, so no send can give up *)
+Theorem C01_generate_eof_cancels_nothing :
+  forall n input s,
+    reach (gen_net n GEof) (gen_init n input) s -> s_stopped s = false -> (exists j, j < n /\ ~ isdone s (3 + j)) ->
+    s_canc s = [] /\ closedb s 0 = false.
+Proof. exact gen_eof_no_cancel. Qed.
+Print Assumptions C01_generate_eof_cancels_nothing.
+
+(* the contrast (what treating the end of the stream as a failure does): with GFail the same schedule drops
+   the value worker 3 has generated and not sent yet, in a run that nothing else aborted; with GEof the
+   last step of that schedule - the ctx.Done arm of worker 3's send - is not enabled *)
+Theorem C01_generate_failure_drops_in_flight :
+  (exists s, run_labels (gen_net 2 GFail) gen_fail_labels (gen_init 2 [1]%Z) = Some s /\
+             s_stopped s = false /\ s_drop s = [1]%Z /\ s_deliv s = []) /\
+  run_labels (gen_net 2 GEof) gen_fail_labels (gen_init 2 [1]%Z) = None.
+Proof. split; [exact gen_fail_drops_in_flight|exact gen_eof_cannot_drop_in_flight]. Qed.
+Print Assumptions C01_generate_failure_drops_in_flight.
